@@ -76,6 +76,39 @@ theorem IterOk.loop {X : Nat → Prop} {lo : Nat} {g g' : Graph} {W W' : World} 
     (h : IterOk g g' W W' t c rr s vc) : LoopOk X lo g g' W W' rr :=
   LoopOk.ofFrame hlo hi h.inv h.wired h.frame h.agree h.rank h.fresh h.noOpen
 
+/-- a loop that subscribes no older collector is a frame -/
+theorem LoopOk.toFrame {lo : Nat} {g g' : Graph} {W W' : World} {rr : Nat} (h : LoopOk (fun _ => False) lo g g' W W' rr) :
+    Frame g g' :=
+  ⟨h.next_le, h.kind, fun u k hu => h.input u k hu (fun x => x), h.trainer⟩
+
+/-- a loop whose collectors were created after `gb` leaves `gb` untouched -/
+theorem LoopOk.frameFrom {X : Nat → Prop} {lo : Nat} {gb g g' : Graph} {W W' : World} {rr : Nat} (h : LoopOk X lo g g' W W' rr)
+    (hf : Frame gb g) (hX : ∀ x, X x → gb.next ≤ x) : Frame gb g' := by
+  have h1 := hf.next_le
+  have h2 := h.next_le
+  refine ⟨by omega, ?_, ?_, ?_⟩
+  · intro u hu; rw [h.kind u (by omega), hf.kind u hu]
+  · intro u k hu
+    rw [h.input u k (by omega) (fun hx => by have := hX u hx; omega), hf.input u k hu]
+  · intro gid hg; rw [h.trainer gid (by omega), hf.trainer gid hg]
+
+/-- where the four publishers of a fold lie relative to the apply head `a` of the ensemble: the fold's apply output
+is on the apply side, its train and label outputs and the held-out copy are not -/
+structure FoldReach (g : Graph) (a lo : Nat) (f : Fold) : Prop where
+  ta : Reach g a f.trainApply.node
+  tt : ¬ Reach g a f.trainTrain.node
+  tl : ¬ Reach g a f.trainLabel.node
+  tx : ¬ Reach g a f.testTrain.node
+  ge : lo ≤ f.trainApply.node ∧ lo ≤ f.trainTrain.node ∧ lo ≤ f.trainLabel.node ∧ lo ≤ f.testTrain.node
+  lt : f.trainApply.node < g.next ∧ f.trainTrain.node < g.next ∧ f.trainLabel.node < g.next ∧ f.testTrain.node < g.next
+
+theorem FoldReach.frame {g g' : Graph} {a lo : Nat} {f : Fold} (h : FoldReach g a lo f) (hf : Frame g g') (hw : Wired g)
+    (hb : Bounded g) : FoldReach g' a lo f := by
+  have := hf.next_le
+  obtain ⟨l1, l2, l3, l4⟩ := h.lt
+  exact ⟨h.ta.mono (hf.input_mono hb), fun x => h.tt (Reach.old hf hw l2 x), fun x => h.tl (Reach.old hf hw l3 x),
+    fun x => h.tx (Reach.old hf hw l4 x), h.ge, ⟨by omega, by omega, by omega, by omega⟩⟩
+
 /-- a publisher established before a loop is still one after it -/
 theorem PubOk.loop {X : Nat → Prop} {lo : Nat} {g g' : Graph} {W W' : World} {rr : Nat} (hl : LoopOk X lo g g' W W' rr) (hi : Inv g W) {q : PubRef} {r : Nat}
     {v : Val} (h : PubOk W q r v) : PubOk W' q r v :=
@@ -110,34 +143,53 @@ structure SplitPubs (W : World) (head : Trunk) (ffuid lfuid rr : Nat) (xa feats 
   lab : ∀ i, PubOk W ⟨lfuid, i⟩ rr (.proj i labs)
 
 theorem foldsLoop_spec {scope : GraphM Trunk} {S : Scope} (hs : Spec True scope S) (hS : S.Indep) (head : Trunk)
-    (ff lf : WRef) (rr lo : Nat) (xa feats labs : Val) :
+    (ff lf : WRef) (rr lo : Nat) (xa feats labs : Val) (gb : Graph) (a : Nat) (hwb : Wired gb) (hbb : Bounded gb)
+    (ha : a < gb.next) (hra : Reach gb a head.apply.publisher.node) (hrf : ¬ Reach gb a ff.uid) (hrl : ¬ Reach gb a lf.uid)
+    (hbd : (lo ≤ head.apply.publisher.node ∧ head.apply.publisher.node < gb.next) ∧ (lo ≤ ff.uid ∧ ff.uid < gb.next) ∧
+      (lo ≤ lf.uid ∧ lf.uid < gb.next)) :
     ∀ (remaining fid : Nat) (g : Graph) (W : World), Inv g W → Wired g → rr ≤ g.next → lo ≤ g.next →
-      SplitPubs W head ff.uid lf.uid rr xa feats labs →
+      SplitPubs W head ff.uid lf.uid rr xa feats labs → Frame gb g → AReg a lo gb.next gb.next g W →
       ∃ folds g' W', Run (foldsLoop scope head ff lf remaining fid) g folds g' ∧ LoopOk (fun _ => False) lo g g' W W' rr ∧
         folds.length = remaining ∧
         FoldsVal W' (rr + (g'.next - g.next))
           (fun k => S xa (.proj (2 * k) feats) (.proj (2 * k) labs))
           (fun k => (S (.proj (2 * k + 1) feats) (.proj (2 * k) feats) (.proj (2 * k) labs)).apply) lf.uid fid folds ∧
+        AReg a lo gb.next gb.next g' W' ∧ (∀ f ∈ folds, FoldReach g' a lo f) ∧
         ∃ ts, g'.trains = g.trains ++ ts ∧ (∀ x ∈ ts, W'.live x.train.node ∧ W'.live x.label.node) ∧
           ts.map (trainedUnder W') =
             (List.range remaining).flatMap (fun j => (S xa (.proj (2 * (fid + j)) feats) (.proj (2 * (fid + j)) labs)).states) := by
   intro remaining
   induction remaining with
   | zero =>
-    intro fid g W hi hw _ _ _
-    refine ⟨[], g, W, rfl, LoopOk.refl hi hw rr, rfl, trivial, [], ?_, ?_, rfl⟩
+    intro fid g W hi hw _ _ _ _ hareg
+    refine ⟨[], g, W, rfl, LoopOk.refl hi hw rr, rfl, trivial, hareg, (fun f hf => by cases hf), [], ?_, ?_, rfl⟩
     · simp
     · intro x hx; cases hx
   | succ remaining ih =>
-    intro fid g W hi hw hrr hlo hp
-    obtain ⟨t, c, g1, g2, g3, g4, g5, g6, W6, r1, r2, r3, r4, r5, r6, hit⟩ :=
+    intro fid g W hi hw hrr hlo hp hfb hareg
+    obtain ⟨t, c, g1, g2, g3, g4, g5, g6, W6, r1, r2, r3, r4, r5, r6, hit, hext⟩ :=
       iterV1 hs hS hi hw rr hrr hp.apply (hp.feat (2 * fid)) (hp.lab (2 * fid)) (hp.feat (2 * fid + 1))
     have hl6 : LoopOk (fun _ => False) lo g g6 W W6 rr := hit.loop hlo hi
     have hn6 := hit.frame.next_le
+    have hnb := hfb.next_le
     have hp6 : SplitPubs W6 head ff.uid lf.uid rr xa feats labs :=
       ⟨hp.apply.loop hl6 hi, fun i => (hp.feat i).loop hl6 hi, fun i => (hp.lab i).loop hl6 hi⟩
-    obtain ⟨folds, g', W', hrun, hl', hlen, hfv, ts', hts', hlive', hmap'⟩ :=
-      ih (fid + 1) g6 W6 hit.inv hit.wired (by omega) (by omega) hp6
+    -- the apply side after this round
+    have ireg : IterReg a g g6 W6 t c := hext.areg a (by omega) (hra.mono (hfb.input_mono hbb))
+      (fun h => hrf (Reach.old hfb hwb hbd.2.1.2 h)) (fun h => hrl (Reach.old hfb hwb hbd.2.2.2 h))
+      (fun h => hrf (Reach.old hfb hwb hbd.2.1.2 h))
+    have hareg6 : AReg a lo gb.next gb.next g6 W6 := by
+      refine hareg.step (X := fun _ => False) hfb hwb hw (fun x hx => hx.elim) (fun u k hu _ => hit.frame.input u k hu)
+        (hit.frame.input_mono hi.bounded) hit.agree ?_ ireg.reg
+      intro s k q hs' hq
+      rcases hext.closed s k q hs' hq with h | h | h | h | h
+      · exact Or.inl (by omega)
+      · rw [h]; exact Or.inr hbd.1
+      · rw [h]; exact Or.inr hbd.2.1
+      · rw [h]; exact Or.inr hbd.2.2
+      · rw [h]; exact Or.inr hbd.2.1
+    obtain ⟨folds, g', W', hrun, hl', hlen, hfv, hareg', hfr', ts', hts', hlive', hmap'⟩ :=
+      ih (fid + 1) g6 W6 hit.inv hit.wired (by omega) (by omega) hp6 (hfb.trans hit.frame) hareg6
     have hn' := hl'.next_le
     have hlt6 : ∀ n, W6.live n → n < g6.next := fun n hn => (hit.inv.liveLt n hn).1
     have keep : ∀ q r v, PubOk W6 q r v → PubOk W' q r v := fun q r v h => h.loop hl' hit.inv
@@ -148,12 +200,26 @@ theorem foldsLoop_spec {scope : GraphM Trunk} {S : Scope} (hs : Spec True scope 
       have h6 : PubOk W6 ⟨u, 0⟩ (rr + (g6.next - g.next)) v := ⟨hl, hit.rank u hu hl, hv⟩
       exact (keep _ _ _ h6).mono (by omega)
     refine ⟨⟨t.apply.publisher, t.train.publisher, t.label.publisher, c.publisher, ⟨lf.uid, 2 * fid + 1⟩⟩ :: folds, g', W',
-      ?_, hl6.trans hl', by simp [hlen], ?_, ?_⟩
+      ?_, hl6.trans hl', by simp [hlen], ?_, hareg', ?_, ?_⟩
     · unfold foldsLoop
       exact Run.bind r1 (Run.bind r2 (Run.bind r3 (Run.bind r4 (Run.bind r5 (Run.bind r6 (Run.bind hrun (Run.pure _ _)))))))
     · refine ⟨pub _ _ hit.tails_ge.1 hit.ta.1 hit.ta.2, pub _ _ hit.tails_ge.2.1 hit.tt.1 hit.tt.2,
         pub _ _ hit.tails_ge.2.2.1 hit.tl.1 hit.tl.2, pub _ _ hit.tails_ge.2.2.2 hit.tc.1 hit.tc.2, rfl, ?_⟩
       exact FoldsVal.mono (by omega) (fun q r v h => h) folds (fid + 1) hfv
+    · intro f hf
+      rcases List.mem_cons.mp hf with e | h
+      · subst e
+        have hf6' : Frame g6 g' := hl'.toFrame
+        exact ⟨ireg.ta.mono hl'.inputMono, fun x => ireg.tt (Reach.old hf6' hit.wired (hlt6 _ hit.tt.1) x),
+          fun x => ireg.tl (Reach.old hf6' hit.wired (hlt6 _ hit.tl.1) x),
+          fun x => ireg.tc (Reach.old hf6' hit.wired (hlt6 _ hit.tc.1) x),
+          ⟨by have := hit.tails_ge.1; show lo ≤ t.apply.tail; omega, by have := hit.tails_ge.2.1; show lo ≤ t.train.tail; omega,
+            by have := hit.tails_ge.2.2.1; show lo ≤ t.label.tail; omega,
+            by have := hit.tails_ge.2.2.2; show lo ≤ c.tail; omega⟩,
+          ⟨by have := hlt6 _ hit.ta.1; show t.apply.tail < g'.next; omega, by have := hlt6 _ hit.tt.1; show t.train.tail < g'.next; omega,
+            by have := hlt6 _ hit.tl.1; show t.label.tail < g'.next; omega,
+            by have := hlt6 _ hit.tc.1; show c.tail < g'.next; omega⟩⟩
+      · exact hfr' f h
     · obtain ⟨ts6, hts6, hlive6, hmap6⟩ := hit.trains
       refine ⟨ts6 ++ ts', by rw [hts', hts6, List.append_assoc], ?_, ?_⟩
       · intro x hx
